@@ -1,7 +1,7 @@
 (* C11 — property theorems only. Source = C11.Src, regenerated from /repo on this run. *)
 From Coq Require Import Reals ZArith String List Bool Lra.
 Require Import Py.PyAst Py.PyVal Py.PySem Py.XLemmas.
-Require Import C11.Src C11.Model.
+Require Import C11.Src C11.Dist C11.Model.
 Import ListNotations.
 Open Scope string_scope.
 Open Scope R_scope.
@@ -83,3 +83,12 @@ Theorem C11_sne_term_wiring : forall Ls Sn (kl kk klos : val) mu za sg h rg cu, 
   yields (Gw Ls Sn kl kk klos mu za sg) 100 (CFun src_CosmoLikelihood_likelihood) (Some cl_obj) [VList [num h]] [] rg cu (num (Ls + Sn)) cu
     [("sne", [VObj "Cosmo" []; num mu; num za; num sg]); ("lens", [VObj "Cosmo" []; kl; kk; src; klos; VBool false])].
 Proof. exact sne_term_wiring. Qed.
+
+(* the lens-side modulus difference itself (the C05 distance model compiled against this property's source): for the three magnification
+   types luminosity_distance_modulus returns mu(z_source) - mu(z_anchor) with mu(z) = 5 log10((1+z)^2 max(D_A(z), 1e-5)), recomputed from the
+   cosmology it is handed on EVERY call (the interpreter result is a function of the arguments only) *)
+Theorem C11_lens_side_modulus : forall (DA : R -> R) (DA12 : R -> R -> R),
+  Forall (fun t => forall zl zs zs2 za rg cu, 0 < (1 + zs) * (1 + zs) * floor5 (DA zs) -> 0 < (1 + za) * (1 + za) * floor5 (DA za) ->
+    yields (Gl DA DA12) 60 (CFun src_LensLikelihood_luminosity_distance_modulus) (Some (lens t zl zs zs2)) [cosmo0; Dist.num za] [] rg cu
+      (Dist.num (mu_f DA zs - mu_f DA za)) cu []) MAGS.
+Proof. exact modulus_formula. Qed.
